@@ -7,6 +7,7 @@
 //   3 p q   P[p] = std::move(P[q])            -> 0 deliveries
 //   4 p c   P[p] = F[c].get_promise()         -> 0 deliveries
 //   5 p     P[p].~promise()                   -> 0 deliveries
+//   12 p    { promise<T> local(std::move(P[p])); throw; }  the local dies by stack unwinding -> 0 deliveries
 //   6 p v   P[p](v)   7 p e  P[p](exception)   8 p  P[p](drop)   -> ret deliveries
 //   9 q p v Q[q] = P[p].bind(v)  -> 0      10 q  Q[q]() -> ret deliveries      11 q  destroy Q[q] -> 0 deliveries
 //   14 w c k  waiter w awaits F[c] (k = 0 callback awaiter, 1 detached coroutine) -> 0 parked | 1 kind datum (was ready)
@@ -150,6 +151,16 @@ static void run_case(const vh::Case &cs) {
                 long p = op[1];
                 if (!idx(p, NPROM) || !P[p]) return rej();
                 P[p].reset();
+                return emit(0);
+            }
+            if (k == 12 && n == 2) {
+                long p = op[1];
+                if (!idx(p, NPROM) || !P[p]) return rej();
+                try {
+                    promise<T> local(std::move(*P[p]));
+                    throw 1;
+                } catch (int) {
+                }
                 return emit(0);
             }
             if ((k == 6 || k == 7) && n == 3) {
